@@ -35,6 +35,18 @@ def handle : List String → Option String
       let t ← optF? t
       some (showOpt (c.n s t))
     | _ => none
+  -- `sn.narray <curve> <t|-> <s_1> … <s_k>` (k ≥ 0): `Curve.nArray`, the model of `SNCurve.n(<array>, t)`;
+  -- reply `ok <n_1> … <n_k>` or `err value` (thickness given, curve without thickness parameters)
+  | "sn.narray" :: rest => do
+    let (c, rest) ← parseCurve? rest
+    match rest with
+    | t :: ss =>
+      let t ← optF? t
+      let ss ← parseFloats? ss
+      match c.nArray ss t with
+      | none => some "err value"
+      | some ns => some (joinWith " " ("ok" :: ns.map showFloatBits))
+    | _ => none
   | "sn.strength" :: rest => do
     let (c, rest) ← parseCurve? rest
     match rest with
